@@ -65,16 +65,17 @@ class Env:
                 return v
         return (a + b) / 2
 
+    def sampler(self, name, varkw):
+        if name in self.point:
+            return self.point[name]
+        return self._sample(varkw.get("lo"), varkw.get("hi"), varkw.get("nonzero", False))
+
     def arr(self, name, shape, dtype=np.float32, lo=None, hi=None, lo_strict=False, hi_strict=False,
             kind="data", nonzero=False):
         shape = tuple(shape)
         if self.sym:
             a = ar.sym_array(name, shape, dtype, lo=lo, hi=hi, lo_strict=lo_strict, hi_strict=hi_strict,
                              kind=kind, nonzero=nonzero)
-            for s in a.view(np.ndarray).reshape(-1):
-                nm = s.n.val
-                if nm not in CTX.model:
-                    CTX.model[nm] = self.point[nm] if nm in self.point else self._sample(lo, hi, nonzero)
             self.inputs[name] = a
             return a
         dt = np.float64 if self.mode == "plain64" else dtype
@@ -207,6 +208,7 @@ def run_symbolic(case, model, rng, profile=False):
     CTX.set_model(model)
     ar.install()
     env = Env("sym", point=model, rng=rng)
+    CTX.sampler = env.sampler
     funcs = set()
     if profile:
         sys.setprofile(_profile_collect(funcs))
@@ -502,6 +504,8 @@ def decide_case(case, opts):
     for pi, pr in enumerate(paths):
         if pr.funcs:
             funcs |= pr.funcs
+        if res["violations"]:
+            break      # one reproduced counterexample per configuration is enough
         if pr.error and pr.error[0] == "unsupported":
             res["inconclusive"].append(pr.error[1])
             continue
